@@ -9,14 +9,22 @@ func Shrink(c *Case, owned map[string]bool, budget int) *Case {
 		if budget <= 0 {
 			return false
 		}
-		budget--
-		w := Exec(x)
-		for _, f := range w.Findings {
-			if owned[f.Class] {
-				return true
+		// a candidate must fail twice in a row: prefers reproductions that do
+		// not depend on scheduler luck (e.g. keeps the plug of a burst)
+		for rep := 0; rep < 2; rep++ {
+			budget--
+			w := Exec(x)
+			bad := false
+			for _, f := range w.Findings {
+				if owned[f.Class] {
+					bad = true
+				}
+			}
+			if !bad {
+				return false
 			}
 		}
-		return false
+		return true
 	}
 	cur := *c
 	cur.Steps = append([]Step(nil), c.Steps...)
